@@ -155,8 +155,66 @@ def run(ctx, rep):
             good = 4 in sl["consts"] or any(callee_name(c).endswith("::len") for c in sl["calls"])
         rep.check("C19.orders", "encode_fixed_subframe computes the differences for every buffer (no take / skip / filter on the order loop)", good, loc_of(fb), str([t["aty"][0] for t in loops]),
                   "the loop over the FIXED difference buffers is limited (%s): higher orders are never tried for some inputs, so e.g. a constant block at high bit depth is stored at verbatim size" % [t["aty"][0] for t in loops])
+        # the loop that collects the orders leaves early only for structural reasons (iterator exhausted, block shorter than the
+        # order, difference overflowed, nothing left): no exit decided by looking at the values of a difference buffer
+        pushes = [bi for bi, t in fb.calls() if re.search(r"ArrayVec::<T, CAP>::push$", callee_name(t))]
+        def reach(frm):
+            seen, st_ = set(), list(fb.succs(frm))
+            while st_:
+                x = st_.pop()
+                if x in seen or fb.blocks[x]["cleanup"]:
+                    continue
+                seen.add(x)
+                st_.extend(fb.succs(x))
+            return seen
+        inloop = [pb for pb in pushes if pb in reach(pb)]
+        STRUCT = re.compile(r"(::next|::checked_\w+|::overflowing_\w+|::split_at_checked|::split_first|::split_at|::is_empty|::len|::get|::first|::last|::last_mut|::branch|::into_iter|::iter|::iter_mut|::zip|::deref|::deref_mut|::as_slice|::as_mut_slice|::index|::index_mut|::try_from|::from|::clear|::unwrap|::push|::new|::as_ref|::borrow)$")
+        if len(inloop) != 1:
+            rep.bad("C19.orders", "anchor:order-collecting loop of encode_fixed_subframe", loc_of(fb), "%d pushes inside a loop" % len(inloop))
+        else:
+            loop = reach(inloop[0])
+            loop = {x for x in loop if inloop[0] in reach(x)} | {inloop[0]}
+            odd = []
+            for x in sorted(loop):
+                t = fb.blocks[x]["t"]
+                if t and t["t"] == "switch":
+                    sl = backward_slice(fb, t["o"])
+                    odd += [strip_generics(callee_name(c)) for c in sl["calls"] if not STRUCT.search(strip_generics(callee_name(c)))]
+            rep.check("C19.orders", "the order-collecting loop exits only when a difference cannot be formed (short block, overflow, empty)", not odd, loc_of(fb), "%d blocks in the loop" % len(loop),
+                      "an exit of the loop over the FIXED orders is decided by %s: an order whose differences have some value pattern (e.g. all zero - the cheapest of all) is never offered to the selection" % sorted(set(odd)))
         av = [t for _, t in fb.calls() if re.search(r"ArrayVec<T, CAP> as std::iter::IntoIterator>::into_iter$", callee_name(t)) and re.search(r",\s*5>$", t["aty"][0])]
         rep.check("C19.orders", "all of orders 0..=4 that were computed take part in the selection", len(av) == 1, loc_of(fb))
+    # ---- C19.orders (partitions): the candidate partition orders are 0..=limit - order 0 is tried for every block length (an odd
+    # block has no other), and the limit itself is tried; an exclusive range must add the one back after taking the minimum
+    pb = anchor(F, rep, "C19.orders", "encode::write_residuals::best_partitions")
+    if pb is not None:
+        incl = [t for _, t in pb.calls() if re.search(r"RangeInclusive::<Idx>::new$", callee_name(t)) and t["f"]["args"] == ["u32"]]
+        excl = [st_ for bl in pb.blocks for st_ in bl["s"] if st_["rv"]["r"] == "agg" and st_["rv"].get("adt") == "std::ops::Range" and op_const(st_["rv"]["ops"][0]) and op_const(st_["rv"]["ops"][0])["ty"] == "u32"]
+        good, how = False, "no u32 range of orders found"
+        if len(incl) + len(excl) == 1:
+            if incl:
+                good, how = op_int(incl[0]["a"][0]) == 0, "0..=limit"
+            else:
+                good = op_int(excl[0]["rv"]["ops"][0]) == 0
+                o = excl[0]["rv"]["ops"][1]
+                plus_one = False
+                for _ in range(4):
+                    pl = op_place(o)
+                    if pl is None:
+                        break
+                    ds = [d for d in pb.defs().get(pl["l"], []) if not d[2]["d"]["p"]]
+                    if len(ds) != 1 or ds[0][1] == "T":
+                        break
+                    rv = ds[0][2]["rv"]
+                    if rv["r"] == "bin" and rv["op"] in ("Add", "AddWithOverflow", "AddUnchecked") and (op_int(rv["b"]) == 1 or op_int(rv["a"]) == 1):
+                        plus_one = True
+                        break
+                    if rv["r"] != "use":
+                        break
+                    o = rv["o"]
+                good, how = good and plus_one, "0..limit" + (" + 1" if plus_one else " (the end is not `limit + 1`)")
+        rep.check("C19.orders", "best_partitions tries every partition order from 0 up to and including the limit", good, loc_of(pb), how,
+                  "the partition orders tried are %s: for some block lengths (odd ones have only order 0) no Rice-coded layout is tried at all and the block falls back to 31-bit escapes / verbatim" % how)
     # keys: closures passed to min_by_key in encode_subframe / correlate_channels_exhaustive use written()
     for path in ("encode::encode_subframe",):
         fb = anchor(F, rep, "C19.min", path)
